@@ -80,8 +80,17 @@ func modules(t *sg.TypeSpec, hops int) []*sg.Mod {
 		m1.Nodes[0].Kids = append(m1.Nodes[0].Kids, &sg.Node{Kind: "leaf", Name: "w1", Type: &sg.TypeSpec{Name: last, Patterns: []string{"zz+"}}},
 			&sg.Node{Kind: "leaf-list", Name: "w2", Type: &sg.TypeSpec{Name: last}})
 	}
+	if t.Name != "empty" {
+		// the same type on a leaf-list: an entry is validated, and its rejection located, like the value of the leaf
+		m1.Nodes[0].Kids = append(m1.Nodes[0].Kids, &sg.Node{Kind: "leaf-list", Name: "vl", Type: m1.Nodes[0].Kids[0].Type})
+	}
 	return []*sg.Mod{m0, m1}
 }
+
+type vctx struct{}
+
+func (vctx) ErrorHelpText() []string    { return nil }
+func (vctx) AllowIncompletePaths() bool { return false }
 
 func identNames(base string) []string {
 	switch base {
@@ -417,6 +426,25 @@ func checkCase(c Case) fw.Outcome {
 			return out
 		}
 		nearBound++
+		// the same value reached by walking the schema: the value of the leaf, an entry of the leaf-list
+		for _, name := range []string{"v", "vl"} {
+			if c.Type.Name == "empty" {
+				break
+			}
+			werr := res.MS.Validate(vctx{}, nil, []string{"m1-top", name, v})
+			if (werr == nil) != want {
+				out.Violation = fmt.Sprintf("value %q of %s reached through the schema: member of the value space = %v, Validate says %v\n%s", v, name, want, werr, src)
+				return out
+			}
+			if werr != nil {
+				wp, _, _, ok := merr.Fields(werr)
+				wantPath := "/m1-top/" + name + "/" + strings.ReplaceAll(url.QueryEscape(v), "+", "%20")
+				if !ok || wp != wantPath {
+					out.Violation = fmt.Sprintf("rejection of %q for %s reached through the schema carries path %q, want %q (%v)\n%s", v, name, wp, wantPath, werr, src)
+					return out
+				}
+			}
+		}
 		if err != nil {
 			p, msg, tag, ok := merr.Fields(err)
 			if !ok {
